@@ -117,7 +117,10 @@ CLAIMED = {
             "the true conditions, exactly-one -> exactly that subtree with its status mirrored, none/two -> FAILURE and "
             "no subtree, missing variable -> FAILURE; RUNNING tick never re-evaluates the conditions, leaves the "
             "blackboard alone and re-ticks only the chosen subtree unless another flag is set (K3 only); "
-            "C18_eo_history(_exclusive), C18_eo_isEitherOr). PARTIAL only in what K3 refutes (several true conditions)", P,
+            "C18_eo_history(_exclusive), C18_eo_isEitherOr); C18d: renumbering yields consecutive, hence pairwise distinct "
+            "ids for every tree, so both history theorems hold for EVERY idiom the constructors build with no hypothesis "
+            "about ids or shape left (C18_pickup_constructor_history, C18_eo_constructor_history(_exclusive/_two)). "
+            "PARTIAL only in what K3 refutes (several true conditions)", P,
             BT + "Known finding K3 (either_or with an odd number >= 3 of true conditions)."),
     "C19": ("theorems: for every node of every reachable state tip = None iff status INVALID, otherwise the tip is a "
             "non-INVALID node of that subtree; in sequence/selector trees over leaves the tip after a tick is the last "
